@@ -18,6 +18,8 @@ U64 = (1 << 64) - 1
 YEAR = 365 * 86400
 MULT = {'s': 1, 'm': 60, 'h': 3600, 'd': 86400, 'w': 604800}
 PER_CFG = 250
+# file extensions of a batch (cert_file_ext, pk_file_ext); None = built-in 'pem'
+EXTS = [(None, None), ('crt', 'key'), (None, None), ('cer', None), (None, 'key')]
 
 
 def norm_id(kind, value):
@@ -34,8 +36,9 @@ IP_POOL = ['192.0.2.1', '198.51.100.255', '10.0.0.1', '2001:db8::1', '2001:0db8:
 
 def gen_cases(n, r, now):
     cases = []
-    delays = ['0s', '1s', '1h', '1d', '30d', '10w', '3650d']
-    rers = ['0s', '0s', '1s', '10s', '1h', '1d', '40d', '3650d']
+    # (a period may repeat a unit and list units in any order: the couples add up)
+    delays = ['0s', '1s', '1h', '1d', '30d', '10w', '3650d', '40s20h4h2s', '1w1w1w', '20d0d10d', '3d2w1d']
+    rers = ['0s', '0s', '1s', '10s', '1h', '1d', '40d', '3650d', '30m30m', '1d0d1d']
     # one configuration file per batch: its [global] section sets (or not) both options
     glob = {}
     for b in range(0, n, PER_CFG):
@@ -90,7 +93,7 @@ def gen_cases(n, r, now):
                 else:
                     rer_txt = gval or default
                 place[opt]['level'] = 'global' if gval else 'default'
-        rd = sum(int(x[:-1]) * MULT[x[-1]] for x in [rd_txt])
+        rd = period_s(rd_txt)
         off = {
             'epoch': None, 'past-year': -YEAR, 'past-second': -1, 'now': 0, 'plus-second': 2, 'month': 30 * 86400, 'quarter': 90 * 86400,
             'y67': 67 * YEAR, 'y68': (1 << 31) - 86400 * r.randint(0, 3), 'y69': (1 << 31) + 86400 * r.randint(1, 400), 'century': 100 * YEAR,
@@ -175,16 +178,18 @@ def probe_part(chk, tier, r):
             cd = '%s/s%d' % (d, c['i'])
             os.makedirs(cd)
             c['dir'] = cd
+            ce, pe = EXTS[(c['i'] // PER_CFG) % len(EXTS)]
+            c['cert_name'], c['key_name'] = 'c.crt.' + (ce or 'pem'), 'c.pk.' + (pe or 'pem')
             if c['files'] in ('both', 'no-key'):
-                mk.append({'id': c['i'], 'out_cert': cd + '/c.crt.pem', 'out_key': (cd + '/c.pk.pem') if c['files'] == 'both' else None,
+                mk.append({'id': c['i'], 'out_cert': cd + '/' + c['cert_name'], 'out_key': (cd + '/' + c['key_name']) if c['files'] == 'both' else None,
                            'key_type': 'ecdsa-p256', 'not_after': c['not_after'], 'not_before': '19700101000000Z', 'sans': [list(x) for x in c['sans']]})
             elif c['files'] == 'no-cert':
-                mk.append({'id': c['i'], 'out_key': cd + '/c.pk.pem', 'key_type': 'ecdsa-p256', 'sans': [['dns', 'x.example']]})
+                mk.append({'id': c['i'], 'out_key': cd + '/' + c['key_name'], 'key_type': 'ecdsa-p256', 'sans': [['dns', 'x.example']]})
         C.vtool('mkcert', mk, timeout=3600)
         for c in cases:
             if c.get('links'):
                 os.makedirs(c['dir'] + '/real')
-                for which, name in (('cert', 'c.crt.pem'), ('key', 'c.pk.pem')):
+                for which, name in (('cert', c['cert_name']), ('key', c['key_name'])):
                     if c['links'] in (which, 'both'):
                         os.rename(c['dir'] + '/' + name, c['dir'] + '/real/' + name)
                         os.symlink('real/' + name, c['dir'] + '/' + name)
@@ -213,6 +218,11 @@ def probe_part(chk, tier, r):
             for k, cc in enumerate(certs):
                 cc['name'] = 'n%d' % (b + k)
             g = {'accounts_directory': d + '/acc', 'certificates_directory': d + '/unused'}
+            ce, pe = EXTS[(b // per_cfg) % len(EXTS)]
+            if ce:
+                g['cert_file_ext'] = ce
+            if pe:
+                g['pk_file_ext'] = pe
             g.update({k: v for k, v in cases[b]['global'].items() if v})
             cfg = {'global': g,
                    'endpoint': endpoints,
@@ -253,6 +263,8 @@ def run_probe(chk, cases, cfgs, binary='acmed_v'):
                               c['renew_delay'] if c['covered'] else '-', c['random_early_renew'] if c['covered'] else '-'))
             if c.get('links'):
                 chk.count('files_behind_symbolic_links')
+            if c.get('cert_name', 'c.crt.pem') != 'c.crt.pem' or c.get('key_name', 'c.pk.pem') != 'c.pk.pem':
+                chk.count('files_named_with_configured_extensions')
             if c['files'] == 'both' and c['covered']:
                 chk.count('delay_formula_checked')
                 chk.count('renew_delay_set_at_' + c['place']['renew_delay']['level'])
